@@ -12,6 +12,7 @@ import ast, sys, os, io, shutil, subprocess, tokenize, json
 REPO = '/repo'
 V = os.path.dirname(os.path.dirname(os.path.abspath(__file__)))
 SKIP_FUNCS = {'__repr__', '_repr_pretty_', '__str__', '__reduce__', 'check_len', '_get_memory_size_disabled'}
+DELSTMT = bool(os.environ.get('MUT_DELSTMT'))
 CMP = {ast.Lt: ('<', '<='), ast.LtE: ('<=', '<'), ast.Gt: ('>', '>='), ast.GtE: ('>=', '>'), ast.Eq: ('==', '!='), ast.NotEq: ('!=', '=='),
        ast.Is: ('is', 'is not'), ast.IsNot: ('is not', 'is'), ast.In: ('in', 'not in'), ast.NotIn: ('not in', 'in')}
 
@@ -97,6 +98,23 @@ def sites(path):
                 if rest.lstrip().startswith(','):
                     c1 += len(rest) - len(rest.lstrip()) + 1
                 out.append(dict(kind='dropkw', line=kw.lineno, c0=kw.col_offset, c1=c1, new='', fn=fn, note=kw.arg))
+        # a simple statement dropped (replaced by `pass`): assignments, augmented assignments, bare calls, single-line returns of a value
+        if DELSTMT and fn is not None and isinstance(node, (ast.Assign, ast.AugAssign, ast.Expr, ast.Return)) and node.lineno == node.end_lineno:
+            ok = True
+            if isinstance(node, ast.Expr) and not isinstance(node.value, (ast.Call, ast.Yield, ast.YieldFrom)):
+                ok = False
+            if isinstance(node, ast.Expr) and isinstance(node.value, (ast.Yield, ast.YieldFrom)):
+                ok = False                     # dropping a yield changes the function kind: too crude
+            if isinstance(node, ast.Return) and node.value is None:
+                ok = False
+            if isinstance(node, ast.Expr) and isinstance(node.value, ast.Call):
+                f = node.value.func
+                nm = f.attr if isinstance(f, ast.Attribute) else getattr(f, 'id', '')
+                if nm in ('warn', 'info', 'warning', 'debug', 'error', 'print'):
+                    ok = False
+            if ok:
+                line = lines[node.lineno - 1]
+                out.append(dict(kind='delstmt', line=node.lineno, c0=node.col_offset, c1=len(line), new='pass', fn=fn))
         if isinstance(node, (ast.If, ast.While)) and not isinstance(node.test, (ast.Compare, ast.BoolOp, ast.UnaryOp)) and node.test.lineno == node.test.end_lineno:
             t = node.test
             out.append(dict(kind='negate', line=t.lineno, c0=t.col_offset, c1=t.end_col_offset, new='(not ' + lines[t.lineno - 1][t.col_offset:t.end_col_offset] + ')', fn=fn))
